@@ -415,6 +415,12 @@ fn domain(f: &StrFn) -> Vec<i128> {
                     if x >= 0 && x <= u64::MAX as i128 {
                         v.push(x as u64 as i64 as i128);
                     }
+                    // the same low word under other high words (a 64-bit tag is not its low half)
+                    if d == 0 && *c >= 0 && *c <= u32::MAX as i128 {
+                        for hi in [1u64 << 32, 1 << 40, 1 << 63, 0xffff_ffff_0000_0000] {
+                            v.push(((*c as u64) | hi) as i64 as i128);
+                        }
+                    }
                 }
             }
             v.sort();
